@@ -419,6 +419,8 @@ example : locate [⟨1, [7]⟩, ⟨2, [9]⟩] 12 = some (0, .entry)
 
 example : ∀ m, m < ([1, 7] : Bytes).length → decLen (([1, 7] : Bytes).take m) = none := by decide
 
+example : WFEntry decLen [1, 7] := ⟨by decide, fun rest => by simp [decLen]⟩
+
 example : (durability [.append [7], .flush, .append [8], .crash 30, .append [9]] false [] [])
     = [([7], true), ([8], false), ([9], true)] := by decide
 
